@@ -25,8 +25,6 @@ T = TypeVar('T')
 class ThreadLocal(Generic[T]):
     """This type offers the ability to store a value based on the thread that accessed the value."""
 
-    __store = {}
-
     def __init__(self, default_provider: Callable[[], T] = lambda: None):
         """
         Create a new ThreadLocal value.
@@ -34,6 +32,8 @@ class ThreadLocal(Generic[T]):
         :param default_provider: a provider that will produce a default value
         """
         self.__default_provider = default_provider
+        # one store per value: a store shared by all instances hands the value of one owner to another
+        self.__store = {}
 
     def get(self) -> T:
         """
@@ -62,6 +62,10 @@ class ThreadLocal(Generic[T]):
         current_thread = threading.current_thread()
         if current_thread.ident in self.__store:
             del self.__store[current_thread.ident]
+
+    def clear_all(self):
+        """Remove the values of all threads."""
+        self.__store.clear()
 
     @property
     def is_set(self):
